@@ -125,7 +125,7 @@ fn small_val(rng: &mut Rng, ty: Ty) -> CVal {
 const SIMPLE_TYS: [Ty; 7] = [Ty::A, Ty::B, Ty::E, Ty::V, Ty::Transform, Ty::Name, Ty::Visibility];
 
 /// fault enumeration (C08): message kind x receiver condition x direction, then a fresh operation
-const FAULT_CASES: usize = 16;
+const FAULT_CASES: usize = 17;
 
 fn fault_history(seed: u64, idx: usize, out: &mut impl Write) {
     let mut rng = Rng::new(seed.wrapping_mul(7_000_003) ^ (idx as u64) ^ 0xFA17);
@@ -147,7 +147,8 @@ fn fault_history(seed: u64, idx: usize, out: &mut impl Write) {
     let names = ["comp+despawn_cmd", "comp+despawn_between", "comp+delete_same_frame", "comp_unregistered_on_receiver",
         "parented+child_despawn_cmd", "parented+parent_despawn_cmd", "parented+parent_despawn_between", "parented+child_despawn_between",
         "delete+delete_crossing", "delete+despawn_cmd", "spawn+delete_same_frame", "comp_burst+despawn_cmd",
-        "parented_chain+despawn_cmd", "comp+sender_despawns_after_write", "reparent+old_parent_despawn_cmd", "delete_parent_with_child"];
+        "parented_chain+despawn_cmd", "comp+sender_despawns_after_write", "reparent+old_parent_despawn_cmd", "delete_parent_with_child",
+        "comp_large_value"];
     writeln!(out, "{}", json!({"ev":"history","family":"fault","id":format!("fault-{}-{}", seed, idx),"clients":nclients,"v6":false,
         "case":names[case],"to_host":to_host})).unwrap();
     let types: serde_json::Map<String, serde_json::Value> =
@@ -189,8 +190,33 @@ fn fault_history(seed: u64, idx: usize, out: &mut impl Write) {
         13 => { c.s.write(snd, x, &CVal::new(Ty::A, 2), &[]); c.s.despawn(snd, x); c.s.step(snd); }
         14 => { c.s.set_parent(snd, x, y); let d = c.drain(40); c.s.trace.push(json!({"ev":"drain","quiescent":d.0,"rounds":d.1}));
                 c.s.set_parent(snd, x, z); c.s.step(snd); c.s.despawn_in_frame(rcv, y); }
-        _ => { c.s.set_parent(snd, x, y); let d = c.drain(40); c.s.trace.push(json!({"ev":"drain","quiescent":d.0,"rounds":d.1}));
+        15 => { c.s.set_parent(snd, x, y); let d = c.drain(40); c.s.trace.push(json!({"ev":"drain","quiescent":d.0,"rounds":d.1}));
                c.s.despawn(snd, y); c.s.step(snd); }
+        _ => {
+            // one component value of 70 – 300 kB: a single protocol message far beyond one packet (nothing bounds a value)
+            let mut v = CVal::new(Ty::V, 9);
+            let len = 70_000 + c.rng.below(230_000);
+            v.list = (0..len).map(|i| (i % 251) as u64).collect();
+            c.s.write(snd, x, &v, &[]);
+            c.s.step(snd);
+            // a message of this size crosses the channel in slices over many frames: wait (bounded) until every peer holds it
+            for _ in 0..400 {
+                c.lockstep(1);
+                let mut all = true;
+                let want = c.s.trace.iter().rev().find(|f| f["ev"] == "frame" && f["peer"] == snd && !f["state"].is_null())
+                    .and_then(|f| f["state"]["ents"].as_array().and_then(|a| a.iter().find_map(|e| e["comps"]["V"].as_str().filter(|s| s.starts_with("sha:")).map(|s| s.to_string()))));
+                for p in 0..c.peers() {
+                    let got = c.s.trace.iter().rev().find(|f| f["ev"] == "frame" && f["peer"] == p && !f["state"].is_null())
+                        .map(|f| f["state"]["ents"].as_array().map(|a| a.iter().any(|e| e["comps"]["V"].as_str().map(|s| Some(s.to_string()) == want).unwrap_or(false))).unwrap_or(false));
+                    if got != Some(true) {
+                        all = false;
+                    }
+                }
+                if all || c.s.panicked.is_some() {
+                    break;
+                }
+            }
+        }
     }
     // the receiver's frame in which the message is polled; sometimes the receiver is one frame late
     if c.rng.chance(1, 4) { c.s.step(snd); }
@@ -506,12 +532,14 @@ fn history(family: &str, seed: u64, idx: usize, thorough: bool, out: &mut impl W
                     writer = *c.rng.pick(&earlier);
                 }
                 let mut nwrites = c.rng.range(1, 6);
+                // values that are not equal to themselves (a NaN float): only the oracle judges these keys
+                let nan = ty == Ty::B && c.rng.chance(1, 3);
                 // a peer that simply puts back the value it had written the last time it was the writer
                 let back = own_last.contains_key(&(writer, h, ty.name())) && c.rng.chance(1, 2);
                 if back {
                     nwrites = 1;
                 }
-                c.s.trace.push(json!({"ev":"phase","writer":writer,"h":h,"ty":ty.name()}));
+                c.s.trace.push(json!({"ev":"phase","writer":writer,"h":h,"ty":ty.name(),"nan":nan}));
                 let mut last_v: Option<CVal> = None;
                 for k in 0..nwrites {
                     // sometimes the application re-writes the value it wrote last (touching it through DerefMut),
@@ -523,6 +551,7 @@ fn history(family: &str, seed: u64, idx: usize, thorough: bool, out: &mut impl W
                             _ => small_val(&mut c.rng, ty),
                         },
                     };
+                    let v = if nan { CVal::new(Ty::B, 1_000_000 + c.rng.below(4) as i64) } else { v };
                     last_v = Some(v.clone());
                     own_last.insert((writer, h, ty.name()), v.clone());
                     c.s.write(writer, h, &v, &[]);
